@@ -24,12 +24,14 @@ theorem emplace_keeps_existing (t : Table) (k : String) (v : Q) (u : String) (w 
   · exact h
   · exact lookup_append_of_some t _ u w h
 
-/-
-**Full statement** (false on the current code, see the two counterexamples below; provable by the same proof with
-the exclusion removed once `"zeta"` is corrected to `"zetta"` in xbt_parse_units.cpp — props/C27/proposed_fix.diff):
-
-theorem units_match_doc : ∀ (k : Kind) (u : String), lookup k u = documented k u
--/
+/-- **Every unit has the documented magnitude** (full statement): for every kind and *every string* `u`, what
+`units.find(u)` returns in the table built by the code equals the hand-written SI/IEC specification — a unit of the
+table has the documented multiplier, a string that is not a documented unit is not in the table.
+(enum over the keys of the generated and of the specified tables, lifted to all strings by `lookup_ext`.)
+Before fix commit "zetta" in /repo this was false for `zetaflops`/`zettaflops` (see the regression below). -/
+theorem units_match_doc : ∀ (k : Kind) (u : String), lookup k u = documented k u := by
+  intro k u
+  cases k <;> exact lookup_ext _ _ (by decide) u
 
 /-- the two unit names on which code and documentation differ -/
 def zetaNames (k : Kind) (u : String) : Prop := k = .speed ∧ (u = "zetaflops" ∨ u = "zettaflops")
@@ -49,33 +51,15 @@ theorem units_match_doc_partial : ∀ (k : Kind) (u : String), ¬ zetaNames k u 
   · exact lookup_ext _ _ (by decide) u
   · exact lookup_ext_except (fun u => zetaNames .speed u) _ _ (by decide) u hz
 
-/-- the documented `zettaflops` (simgrid.dtd) is rejected … -/
-theorem units_match_doc_counterexample :
-    lookup .speed "zettaflops" = none ∧ documented .speed "zettaflops" = some ⟨1000000000000000000000, 1⟩ := by decide
-
-/-- … and the undocumented spelling `zetaflops` is accepted -/
-theorem units_match_doc_counterexample2 :
-    lookup .speed "zetaflops" = some ⟨1000000000000000000000, 1⟩ ∧ documented .speed "zetaflops" = none := by decide
-
-/-
-**Full statement** (false on the current documentation/code pair):
-
-theorem doc_listed_units_accepted : ∀ p ∈ Gen.docListed, (lookup p.1 p.2).isSome
--/
-
-/-- the names on which the unit lists of the documentation and the code differ: `KBps`, `Kbps` (XML_reference.rst
-writes the kilo prefix with a capital K; the code, simgrid.dtd and every example use `k`), `zettaflops` -/
-def docTypos : List String := ["KBps", "Kbps", "zettaflops"]
+/-- regression (fixed defect): the documented `zettaflops` is accepted with 10^21 and the misspelt `zetaflops`,
+which the code used to accept instead, is rejected -/
+theorem units_match_doc_zetta_regression :
+    lookup .speed "zettaflops" = some ⟨1000000000000000000000, 1⟩ ∧ lookup .speed "zetaflops" = none := by decide
 
 /-- **Every unit name the documentation lists is accepted** (XML_reference.rst `<link>` section and simgrid.dtd,
-extracted by the translator), except the three names of `docTypos`.  (enum over the generated list) -/
-theorem doc_listed_units_accepted_partial :
-    ∀ p ∈ Gen.docListed, p.2 ∉ docTypos → (lookup p.1 p.2).isSome := by decide
-
-theorem doc_listed_units_accepted_counterexample :
-    (Kind.bandwidth, "KBps") ∈ Gen.docListed ∧ lookup .bandwidth "KBps" = none ∧
-    (Kind.bandwidth, "Kbps") ∈ Gen.docListed ∧ lookup .bandwidth "Kbps" = none ∧
-    (Kind.speed, "zettaflops") ∈ Gen.docListed ∧ lookup .speed "zettaflops" = none := by decide
+extracted by the translator on every run).  (enum over the generated list.)  Before the two fix commits this failed
+for `KBps`, `Kbps` (capital K in XML_reference.rst) and `zettaflops`. -/
+theorem doc_listed_units_accepted : ∀ p ∈ Gen.docListed, (lookup p.1 p.2).isSome := by decide
 
 /-- the default unit of each kind is the documented one and is in the table (enum: 5 kinds) -/
 theorem default_unit_documented :
